@@ -1098,6 +1098,22 @@ pub fn run(rep: &mut Report) {
                 jobs.push((cat_family(true)[i].clone(), "cats-first", SimpFunc::NoSimp, true, 2, 5000));
             }
         }
+        // a term with a component that is exactly zero inside a non-zero total (cutting the T centre leaves an isolated
+        // Z(pi) = 0 in one term): early-exit shortcuts and anything shared between sibling tasks show up here
+        {
+            let mut d = DiagSpec::empty();
+            let c = d.add(1, (1, 4));
+            let l1 = d.add(1, (1, 1));
+            let l2 = d.add(1, (1, 4));
+            let l3 = d.add(1, (3, 4));
+            d.edges.push((c, l1, true));
+            d.edges.push((c, l2, true));
+            d.edges.push((l2, l3, true));
+            jobs.push((d.clone(), "cutting", SimpFunc::NoSimp, true, 2, if quick { 1500 } else { 20_000 }));
+            if !quick {
+                jobs.push((d, "bss-first", SimpFunc::NoSimp, true, 3, 20_000));
+            }
+        }
         let mut capped = 0;
         // explorations are independent: run them on separate harness threads
         use rayon::prelude::*;
